@@ -16,6 +16,60 @@ COMMON_ASSUMPTIONS = [
     'usize is 64 bit (global size_of usize == 8)',
 ]
 
+# ---- Kani harnesses (kani/harness/*.rs) --------------------------------------------------------------
+def _h(props, complete, bound, fn, panic):
+    return dict(props=props, complete=complete, bound=bound, fn=fn, panic_props=panic)
+
+
+HARNESS = {}
+for _m, _fn in (('bitflip_int', 'BitFlipMutator::mutate_int'), ('bitflip_long', 'BitFlipMutator::mutate_long'),
+                ('boundary_int', 'BoundaryMutator::mutate_int'), ('boundary_long', 'BoundaryMutator::mutate_long'),
+                ('boundary_float', 'BoundaryMutator::mutate_float'), ('offbyone_int', 'OffByOneMutator::mutate_int'),
+                ('offbyone_long', 'OffByOneMutator::mutate_long'), ('offbyone_memo', 'OffByOneMutator::mutate_memo_index'),
+                ('memoindex', 'MemoIndexMutator::mutate_memo_index'), ('not_applicable', 'Mutator default methods')):
+    for _s in ('arb', 'rand'):
+        HARNESS['u8_%s_%s' % (_m, _s)] = _h(
+            ['C15', 'C16'], True,
+            'all values of the argument type, all rates (any f64), ' + ('all fuzzer byte strings of length 0..24 incl. exhausted'
+                                                                        if _s == 'arb' else 'all PRNG outputs (ChaCha8 block output = kani::any())'),
+            'src/mutators: ' + _fn, ['C16', 'C09'])
+for _s in ('arb', 'rand'):
+    HARNESS['u8_character_bytes_' + _s] = _h(['C15', 'C16'], False, 'byte strings of length 0..4 (all bytes), all rates, all entropy',
+                                             'src/mutators/character.rs: CharacterMutator::mutate_bytes', ['C16', 'C09'])
+    HARNESS['u8_typeconfusion_' + _s] = _h(['C15', 'C16', 'C04', 'C06', 'C10'], False,
+                                           'output prefix 0..3 bytes, emission 0..3 bytes (all values), all rates, both modes, all entropy',
+                                           'src/mutators/typeconfusion.rs: TypeConfusionMutator::post_process', ['C16', 'C09'])
+_ARB = 'all fuzzer byte strings of length 0..10 (no scalar draw reads more than 8 bytes), exhausted input included'
+_RND = 'all PRNG outputs (ChaCha8 block output replaced by kani::any())'
+HARNESS.update({
+    'u9_arb_choose_index': _h(['C18'], True, 'all n: usize; ' + _ARB, 'source.rs: choose_index (Arbitrary)', ['C18', 'C09']),
+    'u9_arb_gen_range': _h(['C18'], True, 'all a, b: usize; ' + _ARB, 'source.rs: gen_range (Arbitrary)', ['C18', 'C09']),
+    'u9_arb_gen_ascii_char': _h(['C18'], True, _ARB, 'source.rs: gen_ascii_char (Arbitrary)', ['C18', 'C09']),
+    'u9_arb_scalars_total_and_fallback': _h(['C18'], True, _ARB, 'source.rs: gen_bool/u8/u16/u32/i32/i64/f64 (Arbitrary)', ['C18', 'C09']),
+    'u9_arb_gen_bytes_bounded16': _h(['C18'], False, 'len <= 16; ' + _ARB, 'source.rs: gen_bytes (Arbitrary)', ['C18', 'C09']),
+    'u9_rand_choose_index_grid': _h(['C18'], True, 'n in {0,1,2,3,95,255,256,257,65535,65536,65537,2^32,MAX-1,MAX} (the grid of the statement); ' + _RND,
+                                    'source.rs: choose_index (Rand)', ['C18', 'C09']),
+    'u9_rand_choose_index_bounded_2p16': _h(['C18'], False, 'all n <= 65536 (symbolic); ' + _RND, 'source.rs: choose_index (Rand)', ['C18', 'C09']),
+    'u9_rand_gen_range_grid': _h(['C18'], True, 'a, b in the grid; ' + _RND, 'source.rs: gen_range (Rand)', ['C18', 'C09']),
+    'u9_rand_gen_range_small': _h(['C18'], False, 'all a, b <= 1024 (symbolic); ' + _RND, 'source.rs: gen_range (Rand)', ['C18', 'C09']),
+    'u9_rand_gen_ascii_char': _h(['C18'], True, _RND, 'source.rs: gen_ascii_char (Rand)', ['C18', 'C09']),
+    'u9_rand_scalars_total': _h(['C18', 'C15'], True, _RND, 'source.rs: scalar draws (Rand); gen_f64 in [0,1)', ['C18', 'C09']),
+    'u9_rand_gen_bytes_bounded16': _h(['C18'], False, 'len <= 16; ' + _RND, 'source.rs: gen_bytes (Rand)', ['C18', 'C09']),
+})
+
+U8_QUICK = [n for n in HARNESS if n.startswith('u8_') and 'typeconfusion' not in n]
+U8_THOROUGH = [n for n in HARNESS if n.startswith('u8_typeconfusion')]
+U9_QUICK = [n for n in HARNESS if n.startswith('u9_') and n != 'u9_rand_choose_index_bounded_2p16']
+U9_THOROUGH = ['u9_rand_choose_index_bounded_2p16']
+
+KANI_ASSUMPTIONS = [
+    'Kani 0.68 / CBMC 6.11 (tool soundness); harnesses run on verbatim copies of /repo/src files (build/kani/crate/rsrc), '
+    'the only edit being an appended `#[cfg(kani)] mod verif_harness;` line',
+    'color_eyre replaced by a 20-line stand-in in the harness crate (its dependency backtrace does not build on Kani\'s toolchain)',
+    'PRNG mode: ChaCha8 block output is replaced by kani::any() (over-approximation of every PRNG state); the ChaCha8Rng value itself is zeroed memory that is never read',
+    'termination of loops is not proved by Kani (unwinding assertions are on: the stated unwind bounds are sufficient)',
+]
+
 PROPS = {
     'C03': dict(
         title='Typed opcodes only ever receive operands of the kind they require',
@@ -32,6 +86,37 @@ PROPS = {
             'the composition over a whole generation run relies on the generation loop only emitting opcodes '
             'that passed can_emit (get_valid_opcodes, by inspection until unit "driver" lands)',
         ]),
+    'C15': dict(
+        title='The mutation rate is honoured at its extremes',
+        verus=[], kani_quick=U8_QUICK + ['u9_rand_scalars_total'], kani_thorough=U8_THOROUGH,
+        level='proof',
+        technique='Kani (CBMC) function-level harnesses on the real mutator methods: rate 0.0 => None / output unchanged, rate 1.0 => Some, for every value and every entropy state of both sources',
+        claim='For every built-in mutator method on integers, floats and memo indices: complete proof over the full value domain, every f64 rate and '
+              'every entropy state (all fuzzer byte strings incl. exhausted; all PRNG outputs) that rate 0.0 yields None and rate 1.0 yields Some. '
+              'Byte-string (character) and post-emission rewrite (type confusion) methods: same clauses at a stated length bound.',
+        note='String-valued mutators (StringLength, Character on String) are not yet under contract in this check (CBMC cannot finish on String code); '
+             'first-applicable-wins loop in generator/mutation.rs by inspection. Trusted: Kani/CBMC, ChaCha8 output over-approximated by kani::any().',
+        assumptions=['string mutators: gate clauses not yet machine-checked (they share should_mutate with the checked ones)']),
+    'C16': dict(
+        title='Each mutator performs exactly its documented transformation',
+        verus=[], kani_quick=U8_QUICK, kani_thorough=U8_THOROUGH,
+        level='proof',
+        technique='Kani (CBMC) function-level harnesses on the real mutator methods, full value domain, both entropy sources',
+        claim='Complete proofs (all i32/i64/f64/usize values, all entropy states of both sources, no panic/overflow) of the transformation clause of '
+              'bit-flip, boundary, off-by-one, memo-index; bounded proofs for character (bytes) and type confusion.',
+        note='String-valued transformations (StringLength both kinds, Character on String) are not yet under contract. Trusted: Kani/CBMC, ChaCha8 stub.',
+        assumptions=['StringLengthMutator and CharacterMutator::mutate_string are outside this check for now']),
+    'C18': dict(
+        title='Entropy adapters stay in range and never fail, even on exhausted input',
+        verus=[], kani_quick=U9_QUICK, kani_thorough=U9_THOROUGH,
+        level='proof',
+        technique='Kani (CBMC) loop-free/full-domain harnesses on impl EntropySource for GenerationSource, both variants',
+        claim='Fuzzer-bytes source: complete for all n, a, b: usize and all byte strings of length 0..10 (no scalar draw reads more than 8 bytes): '
+              'results in range, printable characters, fixed fallbacks on exhausted input, no panic. PRNG source: complete for the grid of the '
+              'statement with every PRNG output; symbolic n <= 2^16 / a,b <= 1024 as bounded extras.',
+        note='PRNG source: ChaCha8 output replaced by kani::any(); rand range reduction runs for real but full 64-bit symbolic n does not terminate in CBMC '
+             '(128-bit multiply) so n ranges over the stated grid. gen_bytes bounded to len <= 16 (dead code in the generator).',
+        assumptions=['PRNG variant: n, a, b range over the grid {0,1,2,3,95,255,256,257,65535,65536,65537,2^32,MAX-1,MAX}, not all of usize']),
     'C17': dict(
         title='The simulated stack and memo mirror the reference machine after every opcode',
         verus=['core'], kani=[],
@@ -60,7 +145,4 @@ NOT_APPLICABLE = {
     'C12': 'check under construction in this session',
     'C13': 'front ends (main.rs clap/rayon/filesystem, bash wrapper, PyO3/Python) have no function boundary a contract can be put on and no deductive verifier here accepts them (DESIGN.md section 7)',
     'C14': 'heap reachability through Rc<RefCell<..>> cycles: no contract within reach of Verus (cell model has no heap) or Kani (recursive drop glue does not terminate in CBMC) can express or decide it (DESIGN.md section 7)',
-    'C15': 'check under construction in this session',
-    'C16': 'check under construction in this session',
-    'C18': 'check under construction in this session',
 }
